@@ -28,8 +28,11 @@ struct TaskSpec {
     /// yields before doing anything
     pre_yields: u32,
     children: Vec<TaskSpec>,
-    /// nested scope run by this task (async tasks only) before the final part
+    /// nested scope run by this task before the final part: `scope::run!` in an async task, `scope::run_blocking!` (with a
+    /// blocking root task) in a blocking one
     nested: Option<Box<ScopeSpec>>,
+    /// async tasks only: after spawning its children the task joins (`JoinHandle::join`) the child with this index
+    join_child: Option<usize>,
     /// wait for the scope context to be cancelled before finishing
     wait_cancel: bool,
     /// wait inside a child context with a (virtual) timeout
@@ -67,7 +70,7 @@ fn gen_task(rng: &mut StdRng, next: &mut usize, nscope: &mut usize, depth: u32, 
         }
         children.push(gen_task(rng, next, nscope, depth - 1, budget, false, allow_blocking));
     }
-    let nested = if !blocking && depth > 0 && *budget > 1 && rng.gen_bool(0.25) {
+    let nested = if depth > 0 && *budget > 1 && rng.gen_bool(0.25) {
         let sid = *nscope;
         *nscope += 1;
         Some(Box::new(ScopeSpec { sid, root: gen_task(rng, next, nscope, depth - 1, budget, true, allow_blocking) }))
@@ -80,6 +83,10 @@ fn gen_task(rng: &mut StdRng, next: &mut usize, nscope: &mut usize, depth: u32, 
         _ => Outcome::Ok,
     };
     let wait_cancel = !root && rng.gen_bool(0.35);
+    // a child that certainly finishes on its own (or fails, which cancels the scope): joining it always terminates; joining a
+    // task that panics is documented to panic in the joiner, which would make the joiner deviate from its planned outcome
+    let joinable: Vec<usize> = children.iter().enumerate().filter(|(_, c)| !c.blocking && !c.wait_cancel && c.nested.is_none() && c.outcome != Outcome::Panic).map(|(i, _)| i).collect();
+    let join_child = if !blocking && !joinable.is_empty() && rng.gen_bool(0.4) { Some(joinable[rng.gen_range(0..joinable.len())]) } else { None };
     TaskSpec {
         id,
         main: rng.gen_bool(0.6),
@@ -87,6 +94,7 @@ fn gen_task(rng: &mut StdRng, next: &mut usize, nscope: &mut usize, depth: u32, 
         pre_yields: rng.gen_range(0..4),
         children,
         nested,
+        join_child,
         wait_cancel,
         wait_in_timeout_child: wait_cancel && !blocking && rng.gen_bool(0.3),
         post_yields: rng.gen_range(0..3),
@@ -160,6 +168,10 @@ fn gen_program(rng: &mut StdRng, max_tasks: i32, allow_blocking: bool, allow_pan
 
 #[derive(Clone, Debug, PartialEq)]
 enum Ev {
+    /// (joiner, joined child, value)
+    JoinOk(usize, usize, u64),
+    /// (joiner, joined child): `join` returned Canceled
+    JoinCanceled(usize, usize),
     Start(usize),
     ObservedCancel(usize),
     End(usize, Outcome),
@@ -206,23 +218,20 @@ fn finish(env: &Env<'_>, t: &TaskSpec) -> R {
     }
 }
 
-fn spawn_children<'env>(env: &'env Env<'env>, ctx: &'env ctx::Ctx, s: &'env scope::Scope<'env, u64>, t: &'env TaskSpec) {
-    for c in &t.children {
-        match (c.main, c.blocking) {
-            (true, false) => {
-                s.spawn(run_async(env, ctx, s, c));
-            }
-            (false, false) => {
-                s.spawn_bg(run_async(env, ctx, s, c));
-            }
-            (true, true) => {
-                s.spawn_blocking(move || run_blocking(env, ctx, s, c));
-            }
-            (false, true) => {
-                s.spawn_bg_blocking(move || run_blocking(env, ctx, s, c));
-            }
+fn spawn_children<'env>(env: &'env Env<'env>, ctx: &'env ctx::Ctx, s: &'env scope::Scope<'env, u64>, t: &'env TaskSpec) -> Option<scope::JoinHandle<'env, u64>> {
+    let mut wanted = None;
+    for (i, c) in t.children.iter().enumerate() {
+        let h = match (c.main, c.blocking) {
+            (true, false) => s.spawn(run_async(env, ctx, s, c)),
+            (false, false) => s.spawn_bg(run_async(env, ctx, s, c)),
+            (true, true) => s.spawn_blocking(move || run_blocking(env, ctx, s, c)),
+            (false, true) => s.spawn_bg_blocking(move || run_blocking(env, ctx, s, c)),
+        };
+        if t.join_child == Some(i) {
+            wanted = Some(h);
         }
     }
+    wanted
 }
 
 fn run_blocking<'env>(env: &'env Env<'env>, ctx: &'env ctx::Ctx, s: &'env scope::Scope<'env, u64>, t: &'env TaskSpec) -> R {
@@ -230,7 +239,13 @@ fn run_blocking<'env>(env: &'env Env<'env>, ctx: &'env ctx::Ctx, s: &'env scope:
     for _ in 0..t.pre_yields {
         std::thread::yield_now();
     }
-    spawn_children(env, ctx, s, t);
+    let _ = spawn_children(env, ctx, s, t);
+    if let Some(n) = &t.nested {
+        // a blocking task runs its nested scope through `scope::run_blocking!` with a blocking root task
+        env.log.push(Ev::ScopeEnter(n.sid));
+        let res: R = scope::run_blocking!(ctx, |ctx, s| run_blocking(env, ctx, s, &n.root));
+        env.log.push(Ev::ScopeReturn(n.sid, format!("{res:?}")));
+    }
     if t.wait_cancel {
         ctx.canceled().block();
         env.log.push(Ev::ObservedCancel(t.id));
@@ -247,7 +262,14 @@ fn run_async<'env>(
     Box::pin(async move {
         env.log.push(Ev::Start(t.id));
         yields(t.pre_yields).await;
-        spawn_children(env, ctx, s, t);
+        let handle = spawn_children(env, ctx, s, t);
+        if let (Some(h), Some(i)) = (handle, t.join_child) {
+            let c = t.children[i].id;
+            match h.join(ctx).await {
+                Ok(v) => env.log.push(Ev::JoinOk(t.id, c, v)),
+                Err(ctx::Canceled) => env.log.push(Ev::JoinCanceled(t.id, c)),
+            }
+        }
         if let Some(n) = &t.nested {
             // a nested scope failing does not by itself fail this task: its result is only logged
             let _ = run_scope(env, ctx, n).await;
@@ -373,10 +395,37 @@ fn check(p: &Program, evs: &[(u64, Ev)], top: &Result<R, String>, hung: bool) ->
             }
         }
     }
+    // (2b) result of every nested scope that returned (their tasks never panic by construction): the root's value if no task of
+    //      it returned an error, otherwise the error of one of its tasks
+    for (k, (_, e)) in evs.iter().enumerate() {
+        let Ev::ScopeReturn(sid, res) = e else { continue };
+        if *sid == p.scope.sid {
+            continue;
+        }
+        let members: Vec<&TaskSpec> = all.iter().filter(|(_, pp)| pp.last() == Some(sid)).map(|(t, _)| *t).collect();
+        if members.is_empty() {
+            continue;
+        }
+        let failed: Vec<usize> = members.iter().filter(|m| evs[..k].iter().any(|(_, e)| matches!(e, Ev::End(i, Outcome::Err) if *i == m.id))).map(|m| m.id).collect();
+        let ok = if failed.is_empty() { *res == format!("{:?}", R::Ok(members[0].id as u64)) } else { failed.iter().any(|f| *res == format!("{:?}", R::Err(*f as u64))) };
+        if !ok {
+            v.violations.push(("nested-scope-wrong-result".into(), format!("nested scope {sid} returned {res} although its tasks that returned an error before that were {failed:?} (root task {})", members[0].id)));
+        }
+    }
+    // (2c) JoinHandle::join: a value is returned only for a task that finished successfully, and it is that task's value
+    for (k, (_, e)) in evs.iter().enumerate() {
+        let Ev::JoinOk(j, c, val) = e else { continue };
+        let ended_ok = evs[..k].iter().any(|(_, e)| matches!(e, Ev::End(i, Outcome::Ok) if i == c));
+        if !ended_ok || *val != *c as u64 {
+            v.violations.push(("join-returned-without-successful-task".into(), format!("task {j} joined task {c} and got Ok({val}) although task {c} had not finished successfully before")));
+        }
+    }
     // (3) cancellation is never observed without a trigger: some task of an enclosing scope failed / all its main
-    //     tasks ended / the caller cancelled, before the observation
+    //     tasks ended / the caller cancelled, before the observation (a join that returns Canceled is such an observation)
     for (t, path) in &all {
-        let Some(o) = pos(&Ev::ObservedCancel(t.id)) else { continue };
+        let o1 = pos(&Ev::ObservedCancel(t.id));
+        let o2 = evs.iter().position(|(_, e)| matches!(e, Ev::JoinCanceled(j, _) if *j == t.id));
+        let Some(o) = [o1, o2].into_iter().flatten().min() else { continue };
         let mut justified = false;
         if evs[..o].iter().any(|(_, e)| *e == Ev::CallerCancel) || p.caller_deadline_ms.is_some() {
             justified = true;
@@ -690,6 +739,22 @@ pub fn run(args: &Args, rep: &mut Report) {
             if p.caller_cancel_after.is_some() { rep.count("executions_with_caller_cancel"); }
             if p.caller_deadline_ms.is_some() { rep.count("executions_with_caller_deadline"); }
             if ex.evs.iter().any(|(_, e)| matches!(e, Ev::ScopeEnter(s) if *s > 0)) { rep.count("executions_with_nested_scope"); }
+            rep.add("joins_that_returned_the_task_value", ex.evs.iter().filter(|(_, e)| matches!(e, Ev::JoinOk(..))).count() as u64);
+            rep.add("joins_that_returned_canceled", ex.evs.iter().filter(|(_, e)| matches!(e, Ev::JoinCanceled(..))).count() as u64);
+            rep.add("nested_scope_results_checked", ex.evs.iter().filter(|(_, e)| matches!(e, Ev::ScopeReturn(s, _) if *s > 0)).count() as u64);
+            {
+                // nested scopes entered by a blocking task run through scope::run_blocking!
+                fn blocking_nested(t: &TaskSpec, out: &mut Vec<usize>) {
+                    if let Some(n) = &t.nested {
+                        if t.blocking { out.push(n.sid); }
+                        blocking_nested(&n.root, out);
+                    }
+                    for c in &t.children { blocking_nested(c, out); }
+                }
+                let mut b = vec![];
+                blocking_nested(&p.scope.root, &mut b);
+                rep.add("run_blocking_scopes_executed", ex.evs.iter().filter(|(_, e)| matches!(e, Ev::ScopeEnter(s) if b.contains(s))).count() as u64);
+            }
             if p.ntasks >= 3 {
                 rep.distinct(vcommon::hash_of(&(i, args.shard, format!("{:?}", ex.evs.iter().map(|e| &e.1).collect::<Vec<_>>()))));
             }
